@@ -564,7 +564,7 @@ func TestVerifC19Broker(t *testing.T) {
 	}
 	verifhook.Set("broker.roundedcounter.inc", nil)
 	res.Note("hook_hits", verifhook.AllHits())
-	res.RequireObs("accounting_cases", int64(n/nshards*8/10))
+	res.RequireObs("accounting_cases", int64(n/nshards/2))
 	res.RequireObs("accounting_cases_concurrent", 1)
 	res.RequireObs("second_period_checks", 1)
 	res.RequireObs("counts_not_multiple_of_8", 10)
